@@ -4,6 +4,8 @@ CONSTANTS
     MaxR = 1000000
     MaxFault = 1000000
     TrackFiles = FALSE
+    Extras = TRUE
+    SymBreak = FALSE
     ResolveLock = TRUE
     CloseWaitsForHolders = TRUE
     LayerKeepsBlobRef = TRUE
@@ -12,6 +14,6 @@ CONSTANTS
     CloseReleasesBlob = TRUE
     CloseFiles = TRUE
 SPECIFICATION MonSpec
-INVARIANTS HeldLayerServes AllReleasedAndEvictedFreesEverything ClosedMeansGone NoOpenFilesAfterClose FailedResolveLeaksNothing BurstSharesOneInstance SampleServes
+INVARIANTS HeldLayerServes AllReleasedAndEvictedFreesEverything ClosedMeansGone NoOpenFilesAfterClose FailedResolveLeaksNothing HeldReadsWork BurstSharesOneInstance SampleServes
 PROPERTIES ReadWorks ReturnedIsCached NoDuplicateCreation ResolveAgainWorks
 CHECK_DEADLOCK FALSE
